@@ -32,12 +32,12 @@ def run(ctx):
     def post(P_, J, runs):
         ctx.cov["relational"] = common.relational(ctx, P_, J, runs, clause="backend-dependent", skip=skip)
 
-    J, runs, cov = common.sem_check(ctx, P, variants, level="model_checking", post=post, write=False, skip=skip)
+    J, runs, cov = common.sem_check(ctx, P, variants, level="exploration", post=post, write=False, skip=skip)
     cov["backends_available"] = backends
     cov["backends_unavailable"] = [b for b in ("sdd", "sddx", "fsdd", "fbdd", "bdd") if b not in backends]
     cov["cells"] = ["%s/%s" % c for c in cells]
     cov["relational_comparisons"] = ctx.cov.get("relational", 0)
-    ctx.write_evidence("model_checking", cov, assumptions=[
+    ctx.write_evidence("exploration", cov, assumptions=[
         "SDD/BDD back ends need PySDD, which is not installed in this sandbox: only d-DNNF (dsharp) cells are decided",
         "the symbolic semiring's expression is evaluated as ordinary arithmetic (Python operator precedence)"])
 
